@@ -148,13 +148,13 @@ push_harness!(h_push_a32, A32x4, 256);
 // @bound one push + one drain step; capacity 512
 // @assume as h_push_zst
 push_harness!(h_push_a64, A64x8, 512);
-// @verif prop=C17,C16,C01 tier=thorough timeout=1200 mem=16 unwind=34 leakcheck=1
+// @verif prop=C17,C16,C01 tier=thorough timeout=1500 mem=24 unwind=34 leakcheck=1
 // @enc as h_push_zst
 // @sym as h_push_zst; T = 128-aligned 128 bytes; fill level every multiple of 8 in 0..=1024
 // @bound one push + one drain step; capacity 1024
 // @assume as h_push_zst
 push_harness!(h_push_a128, A128x16, 1024);
-// @verif prop=C17,C16 tier=thorough timeout=1800 mem=8 unwind=34 leakcheck=1
+// @verif prop=C17,C16 tier=thorough timeout=1500 mem=24 unwind=34 leakcheck=1
 // @enc as h_push_zst
 // @sym as h_push_zst; T = 64-aligned 192 bytes; capacity 1024
 // @bound one push + one drain step; capacity 1024
@@ -238,7 +238,7 @@ expand_harness!(h_expand_from_1k, 1024);
 // @bound one growth step from an arbitrary fill level (2 KiB boundary)
 // @assume as h_expand_from_empty
 expand_harness!(h_expand_from_2k, 2048);
-// @verif prop=C17,C16 tier=thorough timeout=1800 mem=8 unwind=4 restrict_vtable=1
+// @verif prop=C17,C16 tier=thorough timeout=1500 mem=24 unwind=4 restrict_vtable=1
 // @enc as h_expand_from_empty
 // @sym capacity 4096, fill level every multiple of 8, req as above
 // @bound one growth step from an arbitrary fill level (4 KiB boundary)
@@ -365,7 +365,7 @@ macro_rules! queue_spec {
     }};
 }
 
-// @verif prop=C17,C16,C01 tier=thorough timeout=3400 mem=30 unwind=9 restrict_vtable=1 leakcheck=1 unwindset=fn:FnOnceQueue::<.*>::execute$:1,fn:FnOnceQueue<.*Drop>::drop$:1,drain_for_each.*\.0$:5
+// @verif prop=C17,C16,C01 tier=thorough timeout=1500 mem=24 unwind=9 restrict_vtable=1 leakcheck=1 unwindset=fn:FnOnceQueue::<.*>::execute$:1,fn:FnOnceQueue<.*Drop>::drop$:1,drain_for_each.*\.0$:5
 // @enc queue::flat::FnOnceQueue::{new,push,push_aux,execute,is_empty,drop,drain_for_each,expand_storage} hvec::* CallItem::{call,drop}
 // @sym payload word v, 32-aligned 32-byte payload a (all bytes)
 // @bound 3 closures (ZST; 8-byte + drop token; 32-aligned + token) in one 1 KiB buffer, executed twice then dropped; recursion of execute/drop cut at the first re-entry (proved unreachable: no chained buffer exists)
@@ -375,7 +375,7 @@ macro_rules! queue_spec {
 fn q_flat_exec() {
     queue_spec!(Q<Log>, true, false);
 }
-// @verif prop=C17,C16,C01 tier=thorough timeout=3400 mem=30 unwind=9 restrict_vtable=1 leakcheck=1 unwindset=fn:FnOnceQueue::<.*>::execute$:1,fn:FnOnceQueue<.*Drop>::drop$:1,drain_for_each.*\.0$:5
+// @verif prop=C17,C16,C01 tier=thorough timeout=1500 mem=24 unwind=9 restrict_vtable=1 leakcheck=1 unwindset=fn:FnOnceQueue::<.*>::execute$:1,fn:FnOnceQueue<.*Drop>::drop$:1,drain_for_each.*\.0$:5
 // @enc as q_flat_exec (drop path: CallItem::drop / drop_in_place)
 // @sym as q_flat_exec
 // @bound 3 closures pushed, queue dropped un-run
@@ -406,7 +406,7 @@ fn q_boxed_drop() {
     queue_spec!(boxed::FnOnceQueue<Log>, false, false);
 }
 
-// @verif prop=C17,C16,C01 tier=thorough timeout=3400 mem=30 unwind=9 restrict_vtable=1 leakcheck=1 unwindset=fn:FnOnceQueue::<.*>::execute$:2,fn:FnOnceQueue<.*Drop>::drop$:2,drain_for_each.*\.0$:5
+// @verif prop=C17,C16,C01 tier=thorough timeout=1500 mem=24 unwind=9 restrict_vtable=1 leakcheck=1 unwindset=fn:FnOnceQueue::<.*>::execute$:2,fn:FnOnceQueue<.*Drop>::drop$:2,drain_for_each.*\.0$:5
 // @enc as q_flat_exec, plus the chained-buffer closure of expand_storage
 // @sym as q_flat_exec; a 1000-byte payload forces one growth (1 KiB -> 2 KiB) with the old buffer chained
 // @bound 5 closures, one buffer growth, executed twice then dropped; recursion bounded at one nested queue
@@ -416,7 +416,7 @@ fn q_boxed_drop() {
 fn q_flat_growth_exec() {
     queue_spec!(Q<Log>, true, true);
 }
-// @verif prop=C17,C16,C01 tier=thorough timeout=3400 mem=30 unwind=9 restrict_vtable=1 leakcheck=1 unwindset=fn:FnOnceQueue::<.*>::execute$:2,fn:FnOnceQueue<.*Drop>::drop$:2,drain_for_each.*\.0$:5
+// @verif prop=C17,C16,C01 tier=thorough timeout=1500 mem=24 unwind=9 restrict_vtable=1 leakcheck=1 unwindset=fn:FnOnceQueue::<.*>::execute$:2,fn:FnOnceQueue<.*Drop>::drop$:2,drain_for_each.*\.0$:5
 // @enc as q_flat_growth_exec (drop path)
 // @sym as q_flat_growth_exec
 // @bound 5 closures, one buffer growth, dropped un-run
@@ -509,7 +509,7 @@ macro_rules! two_records_growth {
         kani::cover!(true, "script completed");
     }};
 }
-// @verif prop=C17,C16,C01,C05 tier=thorough timeout=3000 mem=30 unwind=9 restrict_vtable=1 leakcheck=1 unwindset=fn:FnOnceQueue::<.*>::execute$:2,fn:FnOnceQueue<.*Drop>::drop$:2,drain_for_each.*\.0$:3
+// @verif prop=C17,C16,C01,C05 tier=thorough timeout=1500 mem=24 unwind=9 restrict_vtable=1 leakcheck=1 unwindset=fn:FnOnceQueue::<.*>::execute$:2,fn:FnOnceQueue<.*Drop>::drop$:2,drain_for_each.*\.0$:3
 // @enc queue::flat::FnOnceQueue::{push,push_aux,expand_storage,execute,drop,drain_for_each} (chained-buffer closure) hvec::*
 // @sym payload word
 // @bound 2 records, one growth 1 KiB -> 2 KiB; execute then drop
@@ -519,7 +519,7 @@ macro_rules! two_records_growth {
 fn q_flat_grow2_exec() {
     two_records_growth!(true);
 }
-// @verif prop=C17,C16,C01,C05 tier=thorough timeout=3000 mem=30 unwind=9 restrict_vtable=1 leakcheck=1 unwindset=fn:FnOnceQueue::<.*>::execute$:2,fn:FnOnceQueue<.*Drop>::drop$:2,drain_for_each.*\.0$:3
+// @verif prop=C17,C16,C01,C05 tier=thorough timeout=1500 mem=24 unwind=9 restrict_vtable=1 leakcheck=1 unwindset=fn:FnOnceQueue::<.*>::execute$:2,fn:FnOnceQueue<.*Drop>::drop$:2,drain_for_each.*\.0$:3
 // @enc as q_flat_grow2_exec (drop path through the chained buffer)
 // @sym payload word
 // @bound 2 records, one growth; dropped un-run
